@@ -252,6 +252,8 @@ pub enum L2Reject {
     TruncatedHeader,
     BadDistance,
     Marker,
+    /// an end-of-stream marker was met before the declared uncompressed size
+    MarkerBeforeSize,
     /// first chunk does not reset the dictionary / props missing (only in strict mode)
     StrictOrder,
 }
@@ -369,6 +371,7 @@ fn ref_lzma2_inner(data: &[u8], strict: bool, d: &mut RefDec) -> Result<usize, L
             Err(DecErr::InputExhausted) => return Err(L2Reject::NeedsMoreInput),
             Err(DecErr::Overshoot) => return Err(L2Reject::ProducesMore),
             Err(DecErr::BadDistance(_)) => return Err(L2Reject::BadDistance),
+            Err(DecErr::UnexpectedMarker) => return Err(L2Reject::MarkerBeforeSize),
             Err(_) => return Err(L2Reject::Marker),
         }
         pos += p;
